@@ -12,9 +12,13 @@ for d in sorted(glob.glob('/verif/seeded/C*-*'), key=lambda x: (x.split('/')[-1]
 seed_table = "\n".join(rows)
 kf = json.load(open('/verif/KNOWN_FINDINGS.json'))['findings']
 open_kf = "\n".join("| %s | `%s` | %s | %s |" % (e['property'], e.get('class'), e['what'][:260].replace('|', '/'), ', '.join(e.get('also_affects', []))) for e in kf if e['status'] == 'open')
-NEW = ('a7654fb', '3999e69', '7c4610a', '55db4ac', 'f86a898', '7579388', 'be48b6c', 'a7fdaaa', 'eeb0aa0', 'cccbd07')
+DESIGN_PHASE = set("d6ce443 3b0e917 7ede7e8 68aec4a ff34a71 4459c3f 48f5c5e dc73715 4e5cd00 1efbf50 40427ea 6095294 f961233 4a772e1 e8cafe9 f6ff441 f760cd6 "
+                   "0444f54 3bc8ecf 8e8e6b6 dffd2f8 3d3411c ac24ab7".split())
+order = subprocess.run("cd /repo && git log --format=%h --reverse", shell=True, capture_output=True, text=True).stdout.split()
+fixed = [e for e in kf if e['status'] == 'fixed' and e.get('commit') and e['commit'] not in DESIGN_PHASE]
+fixed.sort(key=lambda e: order.index(e['commit']) if e['commit'] in order else 10**6)
 fixed_tab = "\n".join("| `%s` | %s (%s) | %s |" % (e['commit'], e['property'], ', '.join(e.get('also_affects', [])), e['line'].split(e['commit'])[-1].strip()[:330].replace('|', '/'))
-                      for e in kf if e['status'] == 'fixed' and e.get('commit') in NEW)
+                      for e in fixed)
 theorems = []
 for p in sorted(glob.glob('/verif/coq/Props/C*.v')):
     names = THM.findall(open(p).read())
